@@ -46,7 +46,7 @@ def label_obj(g, lab):
     return g.Edge.Label(enum_member(g.Edge.Type, lab[0]), lab[1], lab[2])
 
 
-def build(g, spec, resolved=None, use_how=True):
+def build(g, spec, resolved=None, use_how=True, reverse_edges=False):
     r = resolved or Resolved(spec)
     B = Built()
     B.resolved = r
@@ -350,6 +350,8 @@ def build(g, spec, resolved=None, use_how=True):
         kw["modules"] = ctor_mods
         B.module_order += [o.uuid for o in ctor_mods]
     edges = r.edges()
+    if reverse_edges:
+        edges = list(reversed(edges))
     ctor_edges = []
     if use_how:
         for s, t, lab, eh in edges:
